@@ -350,7 +350,48 @@ func directedSyncSlot(rep *Report, seed int64, gap time.Duration) {
 	}
 }
 
+// a proposal for a view the node has not entered must not park the worker in an SPI call whose context the election of
+// the node's own view does not cancel (F15: HandlePrePrepare validated the block before comparing the views)
+func directedFutureViewProposal(rep *Report, seed int64) {
+	d := newDirectedNode(seed)
+	fail := func(prop, sig, detail string) { rep.finding(prop, sig, detail, d.replay()) }
+	defer func() {
+		if !d.stop() {
+			fail("C16", "shutdown-hangs", "directed future-view scenario: WaitUntilShutdown did not return")
+		}
+	}()
+	rep.count("runtime:directed-future-view-proposal")
+	go d.lh.UpdateState(d.ctx, nil, nil)
+	if !d.waitFor("NR", 1, 0, 3*time.Second) {
+		fail("C14", "sync-no-effect", "directed: UpdateState(genesis) did not start height 1")
+		return
+	}
+	gate := d.utils.setGate()
+	var opened int32
+	open := func() {
+		if atomic.CompareAndSwapInt32(&opened, 0, 1) {
+			close(gate)
+		}
+	}
+	defer open()
+	// the node is in (1,0); member 2 leads (1,1) and proposes for it already
+	go d.lh.HandleConsensusMessage(d.ctx, d.preprepare(1, 1, 2, 778))
+	if !d.waitFor("SPI+validate", 1, 0, 400*time.Millisecond) {
+		rep.count("runtime:directed-future-view-proposal-not-validated")
+		return
+	}
+	callCtx := d.utils.ctxOfCall()
+	if !d.trig.fire(1, 0, "own-view") {
+		fail("C14", "main-loop-blocked", "directed: the main loop did not take an election trigger while the worker was inside an SPI call")
+		return
+	}
+	if !ctxDoneWithin(callCtx, time.Second) {
+		fail("C15", "spi-call-not-released-by-own-election", "directed: in view (1,0) the node validates a proposal for view (1,1) under a context that the election of (1,0) does not cancel; the worker stays in the SPI call and the node is stalled")
+	}
+}
+
 func runDirected(rep *Report, seed int64, thorough bool) {
+	directedFutureViewProposal(rep, seed+100)
 	gaps := []time.Duration{0, 2 * time.Millisecond, 10 * time.Millisecond}
 	if thorough {
 		gaps = append(gaps, 200*time.Microsecond, time.Millisecond, 5*time.Millisecond, 30*time.Millisecond)
